@@ -488,6 +488,14 @@ func retryPol(c string) *pubsubpb.RetryPolicy {
 		return &pubsubpb.RetryPolicy{}
 	case "valid":
 		return &pubsubpb.RetryPolicy{MinimumBackoff: durationpb.New(10 * time.Second), MaximumBackoff: durationpb.New(600 * time.Second)}
+	case "minonly":
+		return &pubsubpb.RetryPolicy{MinimumBackoff: durationpb.New(10 * time.Second)}
+	case "maxonly":
+		return &pubsubpb.RetryPolicy{MaximumBackoff: durationpb.New(600 * time.Second)}
+	case "minzero":
+		return &pubsubpb.RetryPolicy{MinimumBackoff: durationpb.New(0), MaximumBackoff: durationpb.New(600 * time.Second)}
+	case "maxzero":
+		return &pubsubpb.RetryPolicy{MinimumBackoff: durationpb.New(10 * time.Second), MaximumBackoff: durationpb.New(0)}
 	}
 	return &pubsubpb.RetryPolicy{MinimumBackoff: dur(c, 0), MaximumBackoff: dur(c, 0)}
 }
